@@ -325,3 +325,36 @@ def literals_deep(F, fn, depth=2):
     for _, r in with_helpers(F, fn, depth):
         out += H.literals(r)
     return out
+
+
+def private_helper_of(F, fn, owners, depth=3):
+    """`fn` is a non-exported function every (transitive, bounded) caller of which is one of `owners`: code that was
+    extracted from the owners and can only run on their behalf.  Returns the set of owners it serves, or None."""
+    base = lambda p_: re.sub(r"(::\{closure#\d+\})+$", "", p_)  # noqa: E731
+    fn = base(fn)
+    meta = F.fns.get(fn)
+    if meta is None or meta.get("exported"):
+        return None
+    serves = set()
+    seen = {fn}
+    frontier = [fn]
+    for _ in range(depth):
+        nxt = []
+        for g in frontier:
+            cs = {base(p_) for (p_, _, _) in F.callers(g)} - {g}
+            if not cs:
+                return None          # dead or called through a path the index does not see: not provably owned
+            for c in cs:
+                if c in owners:
+                    serves.add(c)
+                    continue
+                m = F.fns.get(c)
+                if m is None or m.get("exported"):
+                    return None
+                if c not in seen:
+                    seen.add(c)
+                    nxt.append(c)
+        frontier = nxt
+        if not frontier:
+            return serves or None
+    return None
